@@ -630,7 +630,7 @@ def _eirr_e_samp(element, e_kin, n):
         for eb in element.e_bind.flatten():
             if eb > 0 and eb < e_min:
                 e_min = eb
-        e_min = 1.0 if (e_min < 10.0) else 10.0  # Go to next smaller magnitude
+        e_min = min(10.0, 10.0**np.floor(np.log10(e_min)))  # Go to next smaller magnitude
         e_max = 10 * element.e_bind.max()
         e_max = 10**np.ceil(np.log10(e_max))
         e_samp = 10**np.linspace(np.log10(e_min), np.log10(e_max), n)
